@@ -19,6 +19,7 @@ import (
 	"errors"
 	"fmt"
 	"net/http"
+	"net/textproto"
 	"net/url"
 	"strconv"
 	"strings"
@@ -317,7 +318,10 @@ func httpExtractTrailers(headers http.Header, knownTrailerKeys headerKeys) http.
 			if trailers == nil {
 				trailers = make(http.Header, len(knownTrailerKeys))
 			}
-			trailers[strings.TrimPrefix(key, http.TrailerPrefix)] = vals
+			// (a key with the prefix is not canonicalized by Header.Set; the trailer's
+			// name is, like any other field name, when net/http sends it)
+			name := textproto.CanonicalMIMEHeaderKey(strings.TrimPrefix(key, http.TrailerPrefix))
+			trailers[name] = append(trailers[name], vals...)
 			delete(headers, key)
 			continue
 		}
@@ -325,7 +329,7 @@ func httpExtractTrailers(headers http.Header, knownTrailerKeys headerKeys) http.
 			if trailers == nil {
 				trailers = make(http.Header, len(knownTrailerKeys))
 			}
-			trailers[key] = vals
+			trailers[key] = append(trailers[key], vals...)
 			delete(headers, key)
 			continue
 		}
